@@ -268,6 +268,21 @@ impl Val {
                 format!("EvictedAndUpdate{{evicted:(k{},v{}),update:v{}}}", k, v, u)
             }
             Val::Pair(a, b) => format!("({}, {})", a.show(), b.show()),
+            Val::List(xs) if xs.len() > 96 => {
+                // long lists: both ends, the length and a hash of the whole (messages stay readable,
+                // the digest stays sensitive to every element)
+                let mut h = 0xC0DEu64;
+                for x in xs {
+                    h = crate::rng::mix(h, crate::rng::fnv64(&x.show()));
+                }
+                format!(
+                    "[{},..({} more, hash {:016x})..,{}]",
+                    xs[..24].iter().map(|x| x.show()).collect::<Vec<_>>().join(","),
+                    xs.len() - 32,
+                    h,
+                    xs[xs.len() - 8..].iter().map(|x| x.show()).collect::<Vec<_>>().join(",")
+                )
+            }
             Val::List(xs) => format!(
                 "[{}]",
                 xs.iter().map(|x| x.show()).collect::<Vec<_>>().join(",")
